@@ -316,11 +316,36 @@ def string_from_any(ctx, args, st):
 
 @model(r'^<str as (?:unicode_segmentation::)?UnicodeSegmentation>::graphemes$|^(?:unicode_segmentation::)?UnicodeSegmentation::graphemes$|^<.* as UnicodeSegmentation>::graphemes$')
 def str_graphemes(ctx, args, st):
-    """extended grapheme clusters, modelled as one cluster per code point: exact for text without combining marks, ZWJ sequences,
-    regional indicators, Hangul jamo or CRLF pairs (stated as an assumption by the obligations that use it)"""
+    """extended grapheme clusters: a character of the combining-diacritical block U+0300..U+036F joins the cluster before it and CR LF is one
+    cluster (both exact per UAX #29); every other code point is its own cluster, which is exact for text without other Extend characters, ZWJ
+    sequences, regional indicators, Hangul jamo or prepend characters (stated as an assumption by the obligations that use it)"""
     from .iters import mk_list_iter
     s = str_of(st, args[0])
-    return ret(st, mk_list_iter([st.ref(StrV((c,), 'str')) for c in s.chars]))
+    if s.facts is not None: raise Unsupported('graphemes of an abstract string')
+    def joins(s_, prev, c):
+        """generator (st, bool): c continues the cluster that ends with prev"""
+        conds = []
+        comb = (0x300 <= c <= 0x36F) if isinstance(c, int) else z3.And(z3.UGE(c, 0x300), z3.ULE(c, 0x36F))
+        # an Extend character does not join a preceding control character (CR, LF, other Cc): restrict to non-control predecessors
+        CTL = [(0, 0x1F), (0x7F, 0x9F), (0xAD, 0xAD), (0x61C, 0x61C), (0x180E, 0x180E), (0x200B, 0x200B), (0x200E, 0x200F), (0x2028, 0x202E), (0x2060, 0x206F), (0xFEFF, 0xFEFF),
+               (0xFFF0, 0xFFFB), (0x13430, 0x1343F), (0x1BCA0, 0x1BCA3), (0x1D173, 0x1D17A), (0xE0000, 0xE001F), (0xE0080, 0xE00FF), (0xE01F0, 0xE0FFF)]      # Grapheme_Cluster_Break = Control (+CR, LF)
+        prev_ctl = any(lo <= prev <= hi for lo, hi in CTL) if isinstance(prev, int) else z3.Or(*[z3.And(z3.UGE(prev, lo), z3.ULE(prev, hi)) for lo, hi in CTL])
+        crlf = (prev == 13 and c == 10) if isinstance(prev, int) and isinstance(c, int) else z3.And(ch_expr(prev) == 13, ch_expr(c) == 10)
+        if all(isinstance(x, bool) for x in (comb, prev_ctl, crlf)):
+            yield s_, (comb and not prev_ctl) or crlf; return
+        e = z3.Or(z3.And(comb if not isinstance(comb, bool) else z3.BoolVal(comb), z3.Not(prev_ctl if not isinstance(prev_ctl, bool) else z3.BoolVal(prev_ctl))),
+                  crlf if not isinstance(crlf, bool) else z3.BoolVal(crlf))
+        yield from ctx.ex.fork_bool(s_, z3.simplify(e))
+    def go(s_, i, clusters):
+        if i == len(s.chars):
+            yield s_, 'ret', mk_list_iter([s_.ref(StrV(tuple(cl), 'str')) for cl in clusters]); return
+        c = s.chars[i]
+        if not clusters:
+            yield from go(s_, i + 1, [[c]]); return
+        for s2, j in joins(s_, clusters[-1][-1], c):
+            if j: yield from go(s2, i + 1, clusters[:-1] + [clusters[-1] + [c]])
+            else: yield from go(s2, i + 1, clusters + [[c]])
+    return go(st, 0, [])
 
 
 @model(r'^(?:std|alloc)::slice::<impl \[.*\]>::(join|concat)::<.*>$|^<\[.*\] as (?:std::slice::)?(?:Join|Concat)<.*>>::(join|concat)$')
